@@ -207,6 +207,9 @@ func (cr *cloneRun) run(dir string) {
 	}
 	cr.res.SimNanos = int64(w.Now())
 	cr.res.Steps = w.Steps
+	for k, v := range w.Probes() {
+		cr.res.Stats[k] += int64(v)
+	}
 	cr.res.Shape = hashStrings(cr.shape)
 	cr.res.Nontrivial = cr.res.Stats["clone_started"] > 0 && cr.compares > 0
 	cr.res.TraceHash = hashTrace(w.Trace)
